@@ -451,6 +451,9 @@ Definition do_walk (ref : nat) (names : list nat) (getattr : bool) (s : sstate) 
   match names with
   | [] =>
       let x := get_ref s ref in
+      match fr_xattrOf x with
+      | Some _ => (DFail EINVAL, s)        (* an xattr fid is not part of the path tree: no clone *)
+      | None =>
       let '(w, s1) := walk_one (fr_file x) (fr_node x) None getattr s in
       match w with
       | WFail e => (DFail e, s1)
@@ -468,6 +471,7 @@ Definition do_walk (ref : nat) (names : list nat) (getattr : bool) (s : sstate) 
                        if s_panic s3 then (DFail EFAULT, s3) else (DOk nr, s3)
                    end
           end
+      end
       end
   | _ => walk_steps ref names (hold ref s)
   end.
